@@ -895,6 +895,8 @@ def check(ctx):
     rep.assumptions += ['That gzip / plain / signature-file channels yield the same signature is C01/C06/C12.']
     check_sequence_files(ctx)
     check_labels(ctx)
+    from ..clirules import check_path_types
+    check_path_types(rep, ctx.model, 'A2')
     check_query_paths(ctx)
     check_query(ctx)
     check_independence(ctx)
